@@ -4,7 +4,7 @@
 * complex arrays    - SymArr whose index function returns `Cx` values.
 * numpy / torch     - fftfreq, exp / angle / abs / sqrt / tan on complex or real index-function arrays, torch.complex, .real / .imag,
                       is_complex, dtype casts (complex -> real dtype DISCARDS the imaginary part, as torch / numpy do), sgn, C-order
-                      reshape / flatten, index_add_, boolean-mask assignment of +inf followed by division (x / inf = 0), stack, prod.
+                      reshape / flatten, index_add_, boolean-mask assignment of +inf / masked_fill(_) followed by division (x / inf = 0), unsqueeze, stack, prod.
 * A5 (DFT axioms)   - torch.fft.fft2 / ifft2 (and the numpy twins) return a FRESH complex array F for which only these facts are
                       available: (i) Parseval in the form matching `norm` (ortho: sum|F|^2 = sum|x|^2; backward fft: sum|x|^2 =
                       sum|F|^2 / N; backward ifft: sum|y|^2 = sum|G|^2 / N; forward: mirrored), instantiated at the generic batch
@@ -942,6 +942,10 @@ def install(reg):
             return sym_ok(lambda _a=a: m_abs(interp, _a))
         if name == "angle":
             return sym_ok(lambda _a=a: m_angle(interp, _a))
+        if name in ("masked_fill_", "masked_fill"):
+            return sym_ok(lambda mask, value, _a=a, _inplace=name.endswith("_"): masked_fill(interp, _a, mask, value, _inplace))
+        if name == "unsqueeze":
+            return sym_ok(lambda dim, _a=a: unsqueeze(interp, _a, dim))
         if name == "max" and not is_cx(a):
             # the largest element: only "it is some real number" is used (an upper bound of the array is never needed here)
             return sym_ok(lambda *args, _a=a, **kw: interp.ctx.fresh("arrmax", "real") if not args and not kw else (_ for _ in ()).throw(OutOfSubset("max over an axis")))
@@ -959,6 +963,55 @@ def install(reg):
         return NotImplemented
 
     reg.attr_models[SymArr] = arr_attr
+
+    def masked_fill(interp, a, mask, value, inplace):
+        """Tensor.masked_fill(mask, value): where(mask, value, x) elementwise (mask broadcast to x); masked_fill_ writes the receiver.
+        A fill value of +inf is represented like `x[mask] = inf` (the array may then only be used as a divisor: y / inf = 0)."""
+        if isinstance(value, SymArr) and value.ndim == 0:
+            value = value.fn()
+        if not isinstance(mask, SymArr):
+            raise OutOfSubset("masked_fill with a non-array mask")
+        shape = V.broadcast_shapes(a.shape, mask.shape)
+        if len(shape) != a.ndim or not all(V.dims_equal(x, y) for x, y in zip(shape, a.shape)):
+            raise RaiseSig(RuntimeError("masked_fill: mask is not broadcastable to the tensor"))
+        mf, off = mask.fn, a.ndim - mask.ndim
+        mshape = mask.shape
+
+        def mk(*idx):
+            sub = [z3.IntVal(0) if V._dim_lit(d) == 1 else x for x, d in zip(idx[off:], mshape)]
+            return mf(*sub)
+
+        full_mask = SymArr(a.shape, mk, "bool")
+        if inplace:
+            tgt = a
+        else:
+            tgt = SymArr(a.shape, a.fn, a.kind)
+            if hasattr(a, "c16_cx"):
+                tgt.c16_cx = a.c16_cx
+            like(tgt, getattr(a, "as_type", None), interp.ctx)
+        if isinstance(value, float) and value == float("inf"):
+            arr_setitem(interp, tgt, full_mask, value)
+            return tgt
+        if isinstance(value, float) and value != value or isinstance(value, float) and value == float("-inf"):
+            raise OutOfSubset("masked_fill with nan / -inf")
+        old_fn = tgt.fn
+        tgt.fn = lambda *idx: cite(mk(*idx), value, old_fn(*idx))
+        if inplace:
+            tgt.writes += 1
+        return tgt
+
+    def unsqueeze(interp, a, dim):
+        """Tensor.unsqueeze(dim): a new axis of length 1 at position dim (unsqueeze(0) is x[None])"""
+        if isinstance(dim, Sym):
+            dim = dim.__index__()
+        if not -(a.ndim + 1) <= dim <= a.ndim:
+            raise RaiseSig(IndexError("Dimension out of range"))
+        d = dim % (a.ndim + 1)
+        fn0 = a.fn
+        r = SymArr(tuple(a.shape[:d]) + (1,) + tuple(a.shape[d:]), lambda *idx: fn0(*idx[:d], *idx[d + 1:]), a.kind, base=a.base)
+        if hasattr(a, "c16_cx"):
+            r.c16_cx = a.c16_cx
+        return like(r, getattr(a, "as_type", None), interp.ctx)
 
     # ---------------------------------------------------------------- index_add_ (A6)
     def index_add_(interp, out, dim, index, source, alpha=1):
@@ -1275,18 +1328,6 @@ def install(reg):
     M[torch.sgn] = m_sgn
     M[torch.sign] = m_sgn
     M[np.sign] = m_sgn
-
-    def m_where(interp, c, a=None, b=None):
-        """where(cond, a, b) elementwise (real or complex operands)"""
-        if a is None or not any(isinstance(x, SymArr) for x in (c, a, b)):
-            return NotImplemented
-        r = elementwise(lambda cc, x, y: cite(cc, x, y), c, a, b)
-        r.c16_cx = is_cx(a) or is_cx(b)
-        r.kind = "complex" if r.c16_cx else "real"
-        return like(r, getattr(a, "as_type", None) or getattr(c, "as_type", None), interp.ctx)
-
-    M[np.where] = m_where
-    M[torch.where] = m_where
 
     def m_real(interp, x):
         if isinstance(x, SymArr):
